@@ -76,6 +76,7 @@ class Slice:
         self.ops = set()        # binary/unary operators applied on the way
         self.aggs = set()       # aggregate ADT names constructed on the way
         self.closures = set()
+        self.truncated = False
 
     def has_field(self, owner, field):
         return (owner, field) in self.fields
@@ -101,24 +102,38 @@ def _note_place(sl, fn, p):
         sl.arg_paths.add((p.l, p.fields()))
 
 
-def slice_back(fn, starts, through_calls=True, max_locals=4000, stop_at_calls=()):
-    """Backward explicit-dataflow slice (flow-insensitive over definitions).
-    starts: iterable of operands (dict), Places or local ints.
-    A value returned by a call depends on all the call's arguments (library default) when
-    through_calls; writes through `&mut` arguments of calls are treated as definitions of the
-    borrowed local as well."""
+def _overlap(a, b):
+    n = min(len(a), len(b))
+    return a[:n] == b[:n]
+
+
+def slice_back(fn, starts, through_calls=True, max_items=6000, stop_at_calls=()):
+    """Backward explicit-dataflow slice, flow-insensitive over definitions but *field-sensitive*:
+    work items are (local, field path). A read of `x.a.b` depends on definitions whose destination
+    overlaps `x.a.b` (`x`, `x.a`, `x.a.b`, `x.a.b.c`). `p = &q.f` / `p = q.f` compose paths, struct
+    aggregates are projected field-wise. A value returned by a call depends on all its arguments
+    (library default) when through_calls; a call receiving `&mut q…` is a definition of the places
+    it borrows (a whole-object `&mut self` borrow is not taken to redefine self's individual fields)."""
     sl = Slice()
     d = defs(fn)
     work = []
+    seen = set()
+    argc = fn.r['argc']
 
-    def push_place(p):
+    def push(l, fields):
+        k = (l, fields)
+        if k not in seen:
+            seen.add(k)
+            work.append(k)
+
+    def push_place(p, suffix=()):
         _note_place(sl, fn, p)
         for e in p.p:
             if isinstance(e, dict) and 'ix' in e:
-                work.append(e['ix'])
-        work.append(p.l)
+                push(e['ix'], ())
+        push(p.l, p.fields() + tuple(suffix))
 
-    def push_operand(o):
+    def push_operand(o, suffix=()):
         if 'k' in o:
             sl.consts.append(o['k'])
             if 'promoted' in o['k']:
@@ -128,46 +143,68 @@ def slice_back(fn, starts, through_calls=True, max_locals=4000, stop_at_calls=()
             return
         p = op_place(o)
         if p is not None:
-            push_place(p)
+            push_place(p, suffix)
 
     for s in starts:
         if isinstance(s, int):
-            work.append(s)
+            push(s, ())
         elif isinstance(s, Place):
             push_place(s)
         else:
             push_operand(s)
-    # calls that receive &mut borrows of a local also define it
     mutdefs = _mut_arg_defs(fn)
     while work:
-        l = work.pop()
-        if l in sl.locals:
-            continue
+        l, pf = work.pop()
         sl.locals.add(l)
-        if len(sl.locals) > max_locals:
+        if len(seen) > max_items:
+            sl.truncated = True
             break
-        if 1 <= l <= fn.r['argc']:
+        if 1 <= l <= argc:
             sl.args.add(l)
         for site in d.get(l, ()):
+            lf = site['lhs'].fields()
+            if not _overlap(lf, pf):
+                continue
+            rest = pf[len(lf):] if len(pf) > len(lf) else ()
             if site['kind'] == 'stmt':
                 rv = site['rv']
-                if rv['k'] == 'bin' or rv['k'] == 'un':
+                k = rv['k']
+                if k in ('bin', 'un'):
                     sl.ops.add(rv['op'])
-                if rv['k'] == 'agg':
+                if k in ('use', 'ref', 'rawptr'):
+                    if k == 'use':
+                        push_operand(rv['a'], rest)
+                    else:
+                        push_place(Place(rv['p']), rest)
+                    continue
+                if k == 'agg':
                     if rv.get('ak') == 'adt':
                         sl.aggs.add(rv['adt'] + '::' + rv['variant'])
+                        if rest and rest[0] in rv.get('fields', ()):
+                            push_operand(rv['ops'][rv['fields'].index(rest[0])], rest[1:])
+                            continue
                     elif rv.get('ak') == 'closure':
                         sl.closures.add(rv['def'])
+                    elif rv.get('ak') == 'tuple' and rest and rest[0].isdigit() and int(rest[0]) < len(rv['ops']):
+                        push_operand(rv['ops'][int(rest[0])], rest[1:])
+                        continue
                 for o in rv_operands(rv):
                     push_operand(o)
             else:
                 c = site['call']
-                sl.calls.append(c)
+                if c not in sl.calls:
+                    sl.calls.append(c)
                 if through_calls and not c.is_(stop_at_calls):
                     for a in c.args:
                         push_operand(a)
-        for c in mutdefs.get(l, ()):
-            sl.calls.append(c)
+        for c, q in mutdefs.get(l, ()):
+            qf = q.fields()
+            if not _overlap(qf, pf):
+                continue
+            if not qf and pf and 1 <= l <= argc:
+                continue   # whole-object &mut borrow of a parameter: not a redefinition of its fields
+            if c not in sl.calls:
+                sl.calls.append(c)
             if through_calls and not c.is_(stop_at_calls):
                 for a in c.args:
                     push_operand(a)
@@ -185,7 +222,7 @@ def _mut_arg_defs(fn):
             p = op_place(a)
             if p is not None and not p.p and p.l in mb:
                 for target in mb[p.l]:
-                    m[target.l].append(c)
+                    m[target.l].append((c, target))
     fn._mutargdefs = m
     return m
 
